@@ -1,2 +1,129 @@
--- driver stub for C16 (replaced when the model is built)
-def main : IO Unit := pure ()
+import PyramidModel.Prelude
+import PyramidModel.Lemmas.StaticSpec
+/-! Driver for C16: one JSON case per line, stateful (the file-system listing is set by an `fs` line).
+Texts travel as lists of code points.
+in : {"op":"fs","entries":[[path,isdir(bool),size],…]}                         → {"ok":n}
+     {"op":"np","a":t,"b":t}                                                   → {"join":t,"norm":t,"normb":t}
+     {"op":"secure","tuple":[t,…]}                                             → {"secure":t|null}
+     {"op":"req","mount":"sub"|"plain"|"direct","pkg":b,"base":t,"docroot":t,"index":t,
+      "encs":[[enc,[ext,…]],…],"ae":null|[enc,…],"prefix":t,"path":[byte,…],"tuple":[t,…],"slash":b}
+                                                                               → {"model":O,"spec":O,"tuple":…,"under":b}
+     O = {"out":"urldecode"|"notfound"|"redirect"|"isdir"|"file","path":t|null,"enc":s|null,"vary":b}
+-/
+open Pyr Pyr.Static Lean
+
+abbrev Entries := List (Text × Bool × Nat)
+
+def txt (ns : List Nat) : Text := ns.map Char.ofNat
+def cod (t : Text) : Json := toJson (t.map Char.toNat)
+
+def getTxt (j : Json) (k : String) : Except String Text := do
+  let ns : List Nat ← getAs j k
+  pure (txt ns)
+
+/-- what `os.stat` finds for a path string in a listing of normalised absolute paths: trailing slashes are
+ignored for directories and make a regular file disappear -/
+def osLookup (es : Entries) (p : Text) : Option (Bool × Nat) :=
+  let q := rstripSlash p
+  let q := if q = [] ∧ p ≠ [] then ['/'] else q
+  match es.lookup q with
+  | some (d, n) => if !d ∧ q ≠ p then none else some (d, n)
+  | none => none
+
+def fsOf (es : Entries) : Fs :=
+  { isDir := fun p => match osLookup es p with | some (d, _) => d | none => false
+    isThere := fun p => (osLookup es p).isSome
+    size := fun p => match osLookup es p with | some (_, n) => n | none => 0 }
+
+def outJson : Outcome → Json
+  | .urlDecodeError => Json.mkObj [("out", "urldecode")]
+  | .unicodeEncodeError => Json.mkObj [("out", "unicodeencode")]
+  | .notFound => Json.mkObj [("out", "notfound")]
+  | .redirect => Json.mkObj [("out", "redirect")]
+  | .isADirectory p => Json.mkObj [("out", "isdir"), ("path", cod p)]
+  | .file p e v => Json.mkObj [("out", "file"), ("path", cod p),
+      ("enc", match e with | some s => Json.str s | none => Json.null), ("vary", toJson v)]
+
+def parseEncs (j : Json) : Except String (List (Enc × List Text)) :=
+  match j with
+  | .arr xs => xs.toList.mapM fun x =>
+    match x with
+    | .arr #[e, exts] => do
+      let en : String ← fromJson? e
+      let ex : List (List Nat) ← fromJson? exts
+      pure (en, ex.map txt)
+    | _ => throw "bad enc entry"
+  | _ => throw "bad encs"
+
+def step (es : Entries) (j : Json) : Except String (Entries × Json) := do
+  let op : String ← getAs j "op"
+  match op with
+  | "fs" =>
+    let ej ← getField j "entries"
+    match ej with
+    | .arr xs =>
+      let es' ← xs.toList.mapM fun x =>
+        match x with
+        | .arr #[p, d, n] => do
+          let pn : List Nat ← fromJson? p
+          let db : Bool ← fromJson? d
+          let nn : Nat ← fromJson? n
+          pure (txt pn, db, nn)
+        | _ => throw "bad entry"
+      pure (es', Json.mkObj [("ok", toJson es'.length)])
+    | _ => throw "bad entries"
+  | "np" =>
+    let a ← getTxt j "a"
+    let b ← getTxt j "b"
+    pure (es, Json.mkObj [("join", cod (pjoin a b)), ("norm", cod (normpath (pjoin a b))), ("normb", cod (normpath b))])
+  | "secure" =>
+    let t : List (List Nat) ← getAs j "tuple"
+    pure (es, Json.mkObj [("secure", match securePath (t.map txt) with | some p => cod p | none => Json.null)])
+  | "req" =>
+    let mount : String ← getAs j "mount"
+    let pkg : Bool ← getAs j "pkg"
+    let base ← getTxt j "base"
+    let docroot ← getTxt j "docroot"
+    let index ← getTxt j "index"
+    let encs ← parseEncs (← getField j "encs")
+    let aej ← getField j "ae"
+    let ae : Option (List Enc) ← match aej with
+      | .null => pure none
+      | x => do
+        let l : List String ← fromJson? x
+        pure (some l)
+    let v : View := { pkg := pkg, base := base, docroot := docroot, index := index, encs := encs }
+    let fs := fsOf es
+    match mount with
+    | "direct" =>
+      let t : List (List Nat) ← getAs j "tuple"
+      let segs := t.map txt
+      let slash : Bool ← getAs j "slash"
+      let m := serveDirect fs v ae slash segs
+      let under := match m with | .file p _ _ => underB (rootOf v) p | _ => true
+      pure (es, Json.mkObj [("model", outJson m), ("spec", outJson (specView fs v ae slash segs)),
+        ("tuple", toJson (segs.map fun s => s.map Char.toNat)), ("under", toJson under)])
+    | _ =>
+      let pb : List Nat ← getAs j "path"
+      let wsgi : Trav.Bytes := pb.map UInt8.ofNat
+      let pfx ← getTxt j "prefix"
+      let m := if mount = "sub" then serveSub fs v ae pfx wsgi else servePlain fs v ae wsgi
+      -- the tuple the view sees, and the spec outcome for it (when the request reaches the view)
+      let (tup, spec) : Option (List Trav.Seg) × Outcome :=
+        match Trav.decodePathInfo wsgi with
+        | none => (none, .urlDecodeError)
+        | some t =>
+          if mount = "sub" then
+            match routeRemainder pfx (if t = [] then ['/'] else t) with
+            | none => (none, .notFound)
+            | some rest => (some (Trav.splitPathInfo rest), specView fs v ae (endsWithSlash t) (Trav.splitPathInfo rest))
+          else if traversalReaches (Trav.splitPathInfo (if t = [] then ['/'] else t)) then
+            (some (Trav.splitPathInfo t), specView fs v ae (endsWithSlash t) (Trav.splitPathInfo t))
+          else (none, .notFound)
+      let under := match m with | .file p _ _ => underB (rootOf v) p | _ => true
+      pure (es, Json.mkObj [("model", outJson m), ("spec", outJson spec),
+        ("tuple", match tup with | some s => toJson (s.map fun x => x.map Char.toNat) | none => Json.null),
+        ("under", toJson under)])
+  | _ => throw s!"bad op {op}"
+
+def main : IO Unit := jsonDriverSt ([] : Entries) step
